@@ -303,7 +303,7 @@ fn episode(ctx: &Ctx, case: u64, out: &mut Out) {
             if pairs > 0 {
                 out.class(format!("{:016x}", linz::overlap_pattern(&ops)));
             }
-            if sample.is_none() && pairs > 1 && ops.len() <= 12 {
+            if (sample.is_none() && pairs > 1 && ops.len() <= 12) || (sample.is_none() && out.samples.is_empty() && !ops.is_empty() && ops.len() <= 20) {
                 sample = Some(json!({"case": case, "segment": seg, "key": show(&keys[ki]), "initial": init[ki], "history": ops.iter().map(linz::brief).collect::<Vec<_>>()}));
             }
             init[ki] = quiescent[ki];
